@@ -59,7 +59,7 @@ func runC16(c C16Case, ev *Evid) (fs []Finding) {
 	case "corrupt-src":
 		os.WriteFile(filepath.Join(srcBase, firstRel), c.Corrupt, 0644)
 	}
-	globDiff := c.Cmd == "diff" && len(c.Files) > 1 && c.DestMode != "absent" && c.Fault != "missing-src" && c.Fault != "corrupt-src" && c.Fault != "corrupt-dest"
+	globDiff := c.Cmd == "diff" && len(c.Files) > 1 && c.DestMode != "absent" && c.Fault != "missing-src" && c.Fault != "corrupt-src" && c.Fault != "corrupt-dest" && c.Fault != "layout-mismatch-dest"
 	// two runs: the baseline (text-out to a regular file, no text-out fault) and the faulty one
 	type runResult struct {
 		err     error
@@ -103,6 +103,19 @@ func runC16(c C16Case, ev *Evid) (fs []Finding) {
 				os.WriteFile(p, b, 0644)
 			} else {
 				os.WriteFile(p, c.Corrupt, 0644)
+			}
+		}
+		if c.Fault == "layout-mismatch-dest" && c.Cmd != "generate" && c.DestMode != "absent" {
+			// the existing destination has another layout (a longer last archive, one archive fewer, or one more)
+			df := first
+			if c.Cmd == "sum-copy" || c.Cmd == "sum-diff" {
+				df.Name = "sum.wsp"
+			}
+			p := filepath.Join(destBase, df.Dir, df.Name)
+			os.Remove(p)
+			if err := buildFile(p, FileSpec{L: subtleLayoutVariant(l)}, now); err != nil {
+				add("setup", "%v", err)
+				return runResult{}, false
 			}
 		}
 		effDest := destBase
@@ -206,6 +219,9 @@ func runC16(c C16Case, ev *Evid) (fs []Finding) {
 			return
 		case c.Fault == "corrupt-dest" && c.DestMode != "absent" && (c.Cmd == "diff" || c.Cmd == "copy" || c.Cmd == "sum-copy" || c.Cmd == "sum-diff"):
 			add("silent-success", "%s: the existing destination's header is damaged but the command reported success", desc)
+			return
+		case c.Fault == "layout-mismatch-dest" && c.DestMode != "absent" && (c.Cmd == "diff" || c.Cmd == "copy" || c.Cmd == "sum-copy" || c.Cmd == "sum-diff"):
+			add("silent-success", "%s: the existing destination has the layout %s, which does not match, but the command reported success", desc, subtleLayoutVariant(l))
 			return
 		}
 		destFile := filepath.Join(base.destDir, first.Dir, first.Name)
@@ -433,7 +449,7 @@ func genC16(t *rapid.T) C16Case {
 	case r < 6:
 		c.ArchiveID = rapid.SampledFrom([]int{len(l.Archives), len(l.Archives) + 1, -2, 100}).Draw(t, "badArchive")
 	}
-	c.Fault = rapid.SampledFrom([]string{"none", "none", "none", "textout-nodir", "textout-isdir", "textout-devfull", "missing-src", "corrupt-src", "corrupt-dest", "dest-notdir", "dest-proc", "dest-readonly"}).Draw(t, "fault")
+	c.Fault = rapid.SampledFrom([]string{"none", "none", "none", "textout-nodir", "textout-isdir", "textout-devfull", "missing-src", "corrupt-src", "corrupt-dest", "dest-notdir", "dest-proc", "dest-readonly", "layout-mismatch-dest"}).Draw(t, "fault")
 	if c.Fault == "corrupt-dest" && rapid.Bool().Draw(t, "methodOnly") {
 		c.Corrupt = []byte{0, 0, 0, byte(rapid.SampledFrom([]int{0, 7, 8, 9, 255}).Draw(t, "badMethod"))}
 	} else if c.Fault == "corrupt-src" || c.Fault == "corrupt-dest" {
@@ -461,7 +477,7 @@ func TestC16(t *testing.T) {
 	RunProperty(t, Property[C16Case]{
 		NoteCases:   true,
 		ID:          "C16",
-		Rule:        "rapid-generated invocations of all eight subcommands x archive selection (all / each id / out of range) x window (default, narrow, past, future, beyond the finest retention, degenerate) x copy-nan / header / sort / fill x destination absent / identical / perturbed x environment fault (none, text-out below a missing directory, text-out = a directory, text-out = /dev/full, source missing, source corrupt, destination base below a regular file, destination base under /proc, read-only destination tree with the command run under the effective uid of 'nobody'), at a controlled clock. Each case runs a baseline (no text-out / destination fault) and, for those faults, the faulty run. Oracle: no panic escapes Execute; a nil return of the baseline implies the effect (view/sum: the expected point records; view-raw: all physical slots for the default range; copy/sum-copy: destination holds the source's / the sum's values; diff/sum-diff: no differing slot exists; generate: file with the requested header) and is impossible with an out-of-range archive id or a missing/corrupt source; the faulty run must fail when the text output cannot be opened, when a non-empty output cannot be written, or when the destination cannot be created. Non-trivial: a fault or a non-default selection/window is present. Distinct = hash of the case.",
+		Rule:        "rapid-generated invocations of all eight subcommands x archive selection (all / each id / out of range) x window (default, narrow, past, future, beyond the finest retention, degenerate) x copy-nan / header / sort / fill x destination absent / identical / perturbed x environment fault (none, text-out below a missing directory, text-out = a directory, text-out = /dev/full, source missing, source corrupt, destination base below a regular file, destination base under /proc, existing destination of another layout, read-only destination tree with the command run under the effective uid of 'nobody'), at a controlled clock. Each case runs a baseline (no text-out / destination fault) and, for those faults, the faulty run. Oracle: no panic escapes Execute; a nil return of the baseline implies the effect (view/sum: the expected point records; view-raw: all physical slots for the default range; copy/sum-copy: destination holds the source's / the sum's values; diff/sum-diff: no differing slot exists; generate: file with the requested header) and is impossible with an out-of-range archive id or a missing/corrupt source; the faulty run must fail when the text output cannot be opened, when a non-empty output cannot be written, or when the destination cannot be created. Non-trivial: a fault or a non-default selection/window is present. Distinct = hash of the case.",
 		Assumptions: []string{"checks run as root: permission faults are produced by ENOTDIR / EISDIR / /proc / /dev/full, and by temporarily switching the effective uid to 65534 for the read-only destination"},
 		Gen:         genC16,
 		Run:         runC16,
